@@ -18,11 +18,11 @@ def _key(module, consts, kw):
 
 
 def histories(module, consts, L, *, simulate=None, seed=None, workers=None, timeout=1800, cache=True,
-              constraints=("Bound",), emit="Emit", extra_inv=(), defs="", view=None):
+              constraints=("Bound",), emit="Emit", extra_inv=(), defs="", view=None, extra_cfg=None):
     """returns (list of histories, TlcResult-like stats dict)"""
     consts = dict(consts)
     consts["L"] = str(L)
-    kw = dict(simulate=simulate, seed=seed, constraints=list(constraints), emit=emit, defs=defs, view=view)
+    kw = dict(simulate=simulate, seed=seed, constraints=list(constraints), emit=emit, defs=defs, view=view, extra=extra_cfg)
     cdir = os.path.join(VERIF, "cache")
     path = os.path.join(cdir, "%s_%s.json" % (module, _key(module, consts, kw)))
     if cache and os.path.exists(path):
@@ -31,7 +31,7 @@ def histories(module, consts, L, *, simulate=None, seed=None, workers=None, time
         return d["hists"], d["stats"]
     r = tlc.run(module, consts, simulate=simulate, depth=L + 1 if simulate else None, seed=seed,
                 workers=workers, timeout=timeout, invariants=[emit] + list(extra_inv),
-                constraints=constraints, defs=defs, view=view)
+                constraints=constraints, defs=defs, view=view, **(extra_cfg or {}))
     if r.violation:
         raise tlc.TlcError("generator run of %s violated %s\n%s" % (module, r.violation, r.trace[:3000]))
     hs = r.emitted
